@@ -326,6 +326,54 @@ func TestC14Elections(t *testing.T) {
 						seenB[m.PublicKey] = true
 					}
 				}
+				// scheduling constraints: per-entity cap among the members, and the candidate pool AFTER the per-entity cap
+				// (and validator-set filter) must reach the configured minimum for a committee to exist at all
+				ad := rt.ActiveDeployment(capEpochT(capEpoch))
+				for _, role := range []scheduler.Role{scheduler.RoleWorker, scheduler.RoleBackupWorker} {
+					cs := rt.Constraints[scheduler.KindComputeExecutor][role]
+					perEnt := map[signature.PublicKey]int{}
+					for _, m := range ex.Members {
+						if m.Role != role {
+							continue
+						}
+						mn := byID[m.PublicKey]
+						perEnt[mn.EntityID]++
+						if cs.ValidatorSet != nil && !electedEntities[mn.EntityID] {
+							fail("committee-validator-set", "epoch %d: %s %s belongs to entity %s which has no node in the validator set", capEpoch, role, m.PublicKey, mn.EntityID)
+						}
+					}
+					if cs.MaxNodes != nil && cs.MaxNodes.Limit > 0 {
+						for e, c := range perEnt {
+							if c > int(cs.MaxNodes.Limit) {
+								fail("committee-max-nodes", "epoch %d: entity %s has %d %s nodes in the committee, limit %d", capEpoch, e, c, role, cs.MaxNodes.Limit)
+							}
+						}
+					}
+					poolPerEnt := map[signature.PublicKey]int{}
+					for _, n := range nodes {
+						if ok, _ := eligible(n, node.RoleComputeWorker); !ok || ad == nil || n.GetRuntime(rt.ID, ad.Version) == nil {
+							continue
+						}
+						if cs.ValidatorSet != nil && !electedEntities[n.EntityID] {
+							continue
+						}
+						poolPerEnt[n.EntityID]++
+					}
+					pool, raw := 0, 0
+					for _, c := range poolPerEnt {
+						raw += c
+						if cs.MaxNodes != nil && cs.MaxNodes.Limit > 0 && c > int(cs.MaxNodes.Limit) {
+							c = int(cs.MaxNodes.Limit)
+						}
+						pool += c
+					}
+					if cs.MinPoolSize != nil && pool < int(cs.MinPoolSize.Limit) {
+						fail("committee-below-min-pool", "epoch %d: a committee exists although the %s candidate pool has %d nodes after the per-entity cap (%d before), minimum pool size %d", capEpoch, role, pool, raw, cs.MinPoolSize.Limit)
+					}
+					if raw != pool {
+						rec.Label("committee-pool-capped")
+					}
+				}
 				if workers != int(rt.Executor.GroupSize) || backups != int(rt.Executor.GroupBackupSize) {
 					fail("committee-size", "epoch %d: executor committee has %d workers / %d backups, runtime requires %d / %d", capEpoch, workers, backups, rt.Executor.GroupSize, rt.Executor.GroupBackupSize)
 				}
